@@ -44,10 +44,17 @@ def run_obligation(pkg, fn, hook=None, max_paths=64):
     t0 = time.time()
     try:
         def runner(it):
+            global CURRENT
+            CURRENT = it
             try:
-                return ("ok", fn(it))
+                return ("ok", fn(it), True)
             except ObFail as e:
-                return ("fail", e.detail)
+                return ("fail", e.detail, it.equalities()[1])
+            except PathRaise:
+                it._simple_eq = it.equalities()[1]
+                raise
+            finally:
+                CURRENT = None
         paths = explore(pkg, runner, hook=hook, max_paths=max_paths)
     except LossyOperation as e:
         return dict(status="violation", detail="non-exact operation in formula code: %s" % e, paths=0, stats={}, wall=time.time() - t0)
@@ -56,17 +63,28 @@ def run_obligation(pkg, fn, hook=None, max_paths=64):
     except RecursionError:
         return dict(status="error", detail="recursion limit in analysed code", paths=0, stats={}, wall=time.time() - t0)
     stats = {}
-    fails = []
+    fails, thin_fails = [], []
     for p in paths:
         cond = " and ".join(p.conds) if p.conds else "always"
+        msg = None
         if p.raised is not None:
-            fails.append("on the path [%s] the code raises %s" % (cond, p.raised))
+            msg = "on the path [%s] the code raises %s" % (cond, p.raised)
         elif p.value[0] == "fail":
-            fails.append("on the path [%s]: %s" % (cond, p.value[1]))
+            msg = "on the path [%s]: %s" % (cond, p.value[1])
         else:
             stats = p.value[1] or stats
+        if msg is not None:
+            simple = p.value[2] if p.raised is None else False
+            # on a path that only assumes `variable == constant` equalities the comparison was made after substituting them, so a
+            # remaining difference is a genuine violation on that (lower-dimensional) set of inputs
+            (thin_fails if (p.thin and not simple) else fails).append(msg)
     if fails:
         return dict(status="violation", detail="; ".join(fails)[:4000], paths=len(paths), stats=stats, wall=time.time() - t0)
+    if thin_fails:
+        # the identity fails only where an exact equality of symbolic values was assumed: a polynomial identity need not hold
+        # on such a measure-zero set for the behaviour to be right there, so this is undecided, not a violation
+        return dict(status="error", detail="undecided on a measure-zero path: " + "; ".join(thin_fails)[:1500], paths=len(paths), stats=stats,
+                    wall=time.time() - t0)
     return dict(status="ok", detail="", paths=len(paths), stats=stats, wall=time.time() - t0)
 
 
@@ -139,7 +157,26 @@ def arr_diff_report(got, exp, limit=3):
     return "%d entr%s differ: %s" % (n, "y" if n == 1 else "ies", "; ".join(out[:limit]))
 
 
+CURRENT = None   # the interpreter of the path being checked (set by run_obligation)
+
+
+def _on_path(v):
+    """Specialise a value to the exact equalities assumed on the current path (var = const substitutions)."""
+    it = CURRENT
+    if it is None or not it.thin:
+        return v
+    sub, _ = it.equalities()
+    if not sub:
+        return v
+    if isinstance(v, Arr):
+        return v.map(lambda x: x.subs(sub) if isinstance(x, Poly) else x)
+    if isinstance(v, Poly):
+        return v.subs(sub)
+    return v
+
+
 def require_same(got, exp, what):
+    got, exp = _on_path(got), _on_path(exp)
     if isinstance(exp, Arr):
         if not isinstance(got, Arr) or not got.same(exp):
             raise ObFail("%s: %s" % (what, arr_diff_report(got, exp)))
